@@ -57,9 +57,9 @@ def go (s : St) : List (List Delta) → Nat → String
 def handle : List String → Option String
   | ["c02.slidenums", n, k, j] => do
       let n ← n.toNat?; let k ← k.toNat?; let j ← j.toNat?
-      let nums := numbersAfter n k j
-      let news := (List.range j).map fun i => nextSlideNumber n k i
-      pure s!"{encNatList nums} {encNatList news}"
+      let s := numbersAfter n k j
+      let news := (List.range j).map fun i => nextSlideNumber (numbersAfter n k i)
+      pure s!"{encNatList s.listed} {encNatList s.unlisted} {encNatList news}"
   | ["c02.hist", snap, steps] => do
       let s0 ← (snap.splitOn ";").mapM decPart
       let stepL ← if steps == "!" then some [] else (steps.splitOn "|").mapM decStep
